@@ -27,6 +27,8 @@ def feature(t: pydsdl.CompositeType, d: space.TypeDef) -> str:
 
 
 def classify(t: pydsdl.CompositeType, d: space.TypeDef, got: str, want: str) -> str:
+    if got == "rc=-99":
+        return "write_beyond_buffer"
     if got.startswith("rc="):
         return "unexpected_error"
     if len(got) != len(want):
